@@ -40,6 +40,16 @@ CLAIMED = {
         "(K=16 quick, 32 thorough) by the precondition.",
    note="Trusted: signature-only rewrite std::vector<unsigned>& -> pointer; CBMC tool chain.",
    tech="contract-based deductive verification: CBMC code contracts with loop invariants and decreases clauses (route P), modular --replace-call-with-contract"),
+ "C33": dict(cat="model_checking", design="§4 C33",
+   text="History quantifier removed by a representation invariant INV (cache = first n >= 10 primes, sieve size >= 1): every public operation "
+        "(generate_primes, iterator ctor/dtor/next_prime, clear, set_clear, set_sieve_size) is verified by CBMC on its real text from an ARBITRARY INV state "
+        "against the CONTRACT of Sieve::_extend (full domain for cache lengths 10..30) — INV preserved, output exactly the primes up to the limit in order, "
+        "iterator yields the next prime without gap or repeat. The contract of Sieve::_extend itself (INV kept, cache not shrunk, covers the limit, every "
+        "vector/valarray/slice index in range) is checked only as a BOUNDED stand-in: a grid of concrete (cache length, segment size) x symbolic limit "
+        "(quick: lengths 10/12, segments 4/8 bits, limit <= 120; thorough: more lengths/segments, limits up to 1000 incl. the recursive branch), loops unwound "
+        "to exact maxima with unwinding assertions. Not a proof of _extend.",
+   note="Trusted: container stubs (std::vector/valarray/slice/upper_bound/copy per the standard), ghost prime table (re-checked every run), CBMC. Known finding C33_ITER_STALE_INDEX (read past size() after the shared cache was cleared) is reported as KNOWN-FINDING.",
+   tech="contract-based deductive verification with CBMC on mechanically extracted function text: operations checked against the callee contract of _extend from an arbitrary invariant state (invariant induction over histories); bounded model checking (--unwindset + unwinding assertions) as the stand-in for _extend's own contract"),
  "C34": dict(cat="proof", design="§4 C34",
    text="Contract proof (CBMC, loop-free, full domain) on the real text of tribool.h (Kleene and/or/not/andwk/orwk, conversions: soundness of every combination "
         "of sound answers) and of the Number/Constant/Infty/NaN rules of the Zero/Positive/Negative/NonPositive/NonNegative/Real/Complex/Rational/Integer/Finite "
@@ -94,7 +104,7 @@ NA = {
  "C46": "Contejean-Devie is a stack-driven search whose termination and completeness are a mathematical theorem over unbounded integer vectors; the body is std::vector<DenseMatrix>/vector<vector<bool>> C++ and no unwinding bound closes the while loop.",
 }
 # claimed-in-design but not yet built: listed as not applicable *for now* with that reason, replaced as they are built
-PENDING = {'C17': 'claimed in DESIGN.md §4 but its check is not built yet in this commit; not claimed until bin/check C17 exists', 'C20': 'claimed in DESIGN.md §4 but its check is not built yet in this commit; not claimed until bin/check C20 exists', 'C24': 'claimed in DESIGN.md §4 but its check is not built yet in this commit; not claimed until bin/check C24 exists', 'C33': 'claimed in DESIGN.md §4 but its check is not built yet in this commit; not claimed until bin/check C33 exists', 'C38': 'claimed in DESIGN.md §4 but its check is not built yet in this commit; not claimed until bin/check C38 exists'}
+PENDING = {'C17': 'claimed in DESIGN.md §4 but its check is not built yet in this commit; not claimed until bin/check C17 exists', 'C20': 'claimed in DESIGN.md §4 but its check is not built yet in this commit; not claimed until bin/check C20 exists', 'C24': 'claimed in DESIGN.md §4 but its check is not built yet in this commit; not claimed until bin/check C24 exists', 'C38': 'claimed in DESIGN.md §4 but its check is not built yet in this commit; not claimed until bin/check C38 exists'}
 
 def main():
     ids = [json.loads(l)["id"] for l in open(os.path.join(V, "properties.jsonl"))]
